@@ -2,7 +2,8 @@
 # vcheck.sh <id> [quick|thorough|replay <file>]
 # Rebuilds the coordinator if needed and runs the check against /repo's working tree.
 set -u
-cd /verif || exit 2
+cd "$(dirname "$(readlink -f "$0")")" || exit 2
+export VERIF_DIR=$PWD
 export GOFLAGS=-mod=mod GOPROXY=off GOSUMDB=off GOTOOLCHAIN=local CGO_ENABLED=0
 export PATH=$PATH:/usr/local/bin:/usr/local/go/bin
 id=${1:?property id}
